@@ -1,5 +1,87 @@
-import Rtcm.Model.Names
-import Rtcm.Model.Socket
-import Rtcm.Gen.Tables
+import Rtcm.Lemmas.ReaderItems
+import Rtcm.Props.C02
+import Rtcm.Props.C08
+/-
+  C17 — reader options have only their documented effect.
+-/
 namespace Rtcm
+
+/-- Neither option changes how many bytes are taken for a frame: one pass over a framed item always
+    leaves the stream exactly behind that item — whatever `validate`, `parsed`, the label option and
+    the error mode are, and whatever the frame contains. -/
+theorem C17_consumption (o : Opts) (f rest : Bytes) (hf : Framed f) :
+    (iter fileOps T2 o (fs (f ++ rest))).state = fs rest := by
+  rcases iter_item T2 C02_reader_consts o (.frame f) hf rest with ⟨_, h⟩ | ⟨_, h⟩
+  · simp only [SItem.bytes] at h; rw [h]; rfl
+  · simp only [SItem.bytes] at h; rw [h]; rfl
+
+/-- With validation off the static parser accepts a frame with wrong checksum bytes and decodes it
+    exactly as the same header and payload with the right checksum. -/
+theorem C17_static_parser_novalidate (T : Tables) (h p c : Bytes) (v l : Nat)
+    (hh : h.length = 3) (hc : c.length = 3) (hv : v &&& T.valcksum = 0) :
+    parse T (h ++ p ++ c) v l = parse T (h ++ p ++ crc2bytes (h ++ p)) (v ||| T.valcksum) l := by
+  have h1 := C08_novalidate_ignores_crc T h p c (crc2bytes (h ++ p)) v l hh hc (by simp [crc2bytes, toBytes3]) hv
+  rw [h1]
+  unfold parse
+  have hz : calcCrc24q (h ++ p ++ crc2bytes (h ++ p)) = 0 := crc_self_zero (h ++ p)
+  have n1 : ¬ (v &&& T.valcksum ≠ 0 ∧ calcCrc24q (h ++ p ++ crc2bytes (h ++ p)) ≠ 0) := fun x => x.2 hz
+  have n2 : ¬ ((v ||| T.valcksum) &&& T.valcksum ≠ 0 ∧ calcCrc24q (h ++ p ++ crc2bytes (h ++ p)) ≠ 0) := fun x => x.2 hz
+  rw [if_neg n1, if_neg n2]
+
+/-- Turning parsing off returns, for any well-formed mixed stream, every framed item as a raw frame
+    with no parsed object; for a stream whose frames are all valid these are the same raw frames in
+    the same order as with parsing on. -/
+theorem C17_parsed_off (o : Opts) (items : List SItem) (hv : ∀ it ∈ items, it.Valid T2)
+    (hoff : o.parsed = false)
+    (hgood : ∀ f, SItem.frame f ∈ items → ∃ m, parse T2 f o.validate o.label = .ok m) :
+    (frames (run fileOps T2 o true (fs (streamOf items)))).map (·.1)
+      = (frames (run fileOps T2 { o with parsed := true } true (fs (streamOf items)))).map (·.1)
+    ∧ ∀ rp ∈ frames (run fileOps T2 o true (fs (streamOf items))), rp.2 = none := by
+  rw [(C02_no_frame_lost o items hv).1, (C02_no_frame_lost { o with parsed := true } items hv).1]
+  constructor
+  · induction items with
+    | nil => rfl
+    | cons it rest ih =>
+      have ih' := ih (fun x hx => hv x (by simp [hx])) (fun f hf => hgood f (by simp [hf]))
+      cases it with
+      | frame f =>
+        obtain ⟨m, hm⟩ := hgood f (by simp)
+        simp only [deliverable, hoff, Bool.false_eq_true, if_false, if_true, hm, List.map_append, List.map_cons,
+          List.map_nil]
+        rw [ih']
+      | noise b => simpa [deliverable] using ih'
+      | nmea t body => simpa [deliverable] using ih'
+      | ubx => simpa [deliverable] using ih'
+  · intro rp hrp
+    induction items with
+    | nil => simp [deliverable] at hrp
+    | cons it rest ih =>
+      cases it with
+      | frame f =>
+        simp only [deliverable, hoff, Bool.false_eq_true, if_false, List.cons_append, List.nil_append,
+          List.mem_cons] at hrp
+        rcases hrp with h | h
+        · rw [h]
+        · exact ih (fun x hx => hv x (by simp [hx])) (fun f hf => hgood f (by simp [hf])) h
+      | noise b => exact ih (fun x hx => hv x (by simp [hx])) (fun f hf => hgood f (by simp [hf])) (by simpa [deliverable] using hrp)
+      | nmea t body => exact ih (fun x hx => hv x (by simp [hx])) (fun f hf => hgood f (by simp [hf])) (by simpa [deliverable] using hrp)
+      | ubx => exact ih (fun x hx => hv x (by simp [hx])) (fun f hf => hgood f (by simp [hf])) (by simpa [deliverable] using hrp)
+
+/-- Turning validation off: the reader accepts frames with wrong checksum bytes; what it returns for
+    such a frame is the same message as for the frame with the right checksum, validated. -/
+theorem C17_reader_novalidate (o : Opts) (h p c : Bytes) (hh : h.length = 3) (hc : c.length = 3)
+    (hv : o.validate &&& T2.valcksum = 0) :
+    (SItem.frame (h ++ p ++ c)).events T2 { o with parsed := true }
+      = ((SItem.frame (h ++ p ++ crc2bytes (h ++ p))).events T2 { o with parsed := true, validate := o.validate ||| T2.valcksum }).map
+          (fun ev => match ev with | .frame _ m => .frame (h ++ p ++ c) m | e => e) := by
+  simp only [SItem.events, if_true]
+  rw [C17_static_parser_novalidate T2 h p c o.validate o.label hh hc hv]
+  cases parse T2 (h ++ p ++ crc2bytes (h ++ p)) (o.validate ||| T2.valcksum) o.label with
+  | ok m => rfl
+  | foreign e => rfl
+  | lib e =>
+    simp only [errEvents]
+    repeat' split
+    all_goals rfl
+
 end Rtcm
